@@ -83,7 +83,10 @@ def task_identify(pr, repo):
         def thunk(ex, ctx, prot=prot):
             gs = [C02.mkgroup(repo, 'g%d' % i, (0, 0, 0), label='GRP %d' % i, non_covalently_coupled_groups=[], titratable=True)
                   for i in range(3)]
-            conf = record('conf', None, parameters=record('P', None), non_covalently_coupled_groups=False)
+            # a titrate-only list is given (here: one that names every residue): the search for coupled residues runs all the same
+            opts_ = record('options', None, titrate_only=[('A', i, ' ') for i in range(3)], display_coupled_residues=False)
+            conf = record('conf', None, parameters=record('P', None), non_covalently_coupled_groups=False, options=opts_,
+                          molecular_container=record('mol', None, options=opts_))
             conf.attrs['get_titratable_groups'] = Builtin('gtg', lambda ex: list(gs))
             conf.attrs['calculate_folding_energy'] = Builtin('cfe', lambda ex, **k: 0.0)
             calls = []
@@ -163,7 +166,7 @@ def task_average_marks(pr, repo):
 
 
 def run(pr, repo):
-    pr.parallel([(C02.task_swap, ()), (C02.task_swap_once, ()), (task_involution, ()), (task_couple, ()), (task_identify, ()), (task_container_search, ()), (task_average_marks, ()), (C02.task_sequencing, ()),
+    pr.parallel([(C02.task_swap, ()), (C02.task_swap_once, ()), (task_involution, ()), (task_couple, ()), (task_identify, ()), (task_container_search, ()), (task_average_marks, ()), (C02.task_sequencing, ()), (C02.task_sections, ()),
                  (C02.task_render, ())])
     pr.assumptions += ['A-REAL: after the swap back the determinant LIST ORDER differs, so float sums may differ in the last ulp; '
                        '"undone exactly" is proved for the multisets and over the reals, and monitored to 1e-9 in floats',
